@@ -140,6 +140,21 @@ pub fn tlf_substitutions(e: &Encoded, ti: usize) -> Vec<(Vec<u8>, &'static str)>
         v.push((vec![first | 0x80], "contbit"));
     }
     let tyb = ty_bits(t.ty);
+    // the same length behind a very long TLF (hundreds of leading zero groups): still a VALID field
+    {
+        let cur = if t.ty == RTy::List { (first & 0x0f) as usize } else { t.data_len };
+        if t.size == 1 || t.ty != RTy::List {
+            for nb in [16usize, 255, 256, 257, 300] {
+                let value = if t.ty == RTy::List { cur as u128 } else { (t.data_len + nb) as u128 };
+                if t.ty == RTy::Bool {
+                    continue;
+                }
+                if let Some(tl) = build_tlf_raw(tyb, value, nb) {
+                    v.push((tl, "longpad"));
+                }
+            }
+        }
+    }
     for &h in HUGE {
         for extra in [0usize, 2] {
             let mut n = 1;
